@@ -21,6 +21,26 @@ LEVEL = "model_checking"
 DATES = ["2015-01-01", "2016-07-01", "2018-01-01", "2019-07-01", "2020-01-01", "2021-01-01", "2022-07-01", "2023-01-01", "2024-01-01", "2025-01-01"]
 
 
+def dates_for(rnd, quick, nq, lo="2015-01-01", nreg=2):
+    """Policy dates of a run: 2023-01-01, seeded dates of DATES, and regime dates (gs.regime_dates: every dated version of
+    every rule is in force on one of them); thorough runs take all of them.  2017H1 is left to C08 / C19 (the default
+    targets are not computable there: known finding of C08)."""
+    reg = [d for d in gs.regime_dates(lo, "2025-12-31") if not ("2017-01-01" <= d <= "2017-06-30") and d != "2023-01-01"]
+    pool = [d for d in DATES if d != "2023-01-01"]
+    if quick:
+        return ["2023-01-01"] + rnd.sample(pool, min(nq, len(pool))) + rnd.sample(reg, min(nreg, len(reg)))
+    return ["2023-01-01"] + pool + [d for d in reg if d not in pool]
+
+
+def change_dates_for(rnd, quick, nq, nreg=2):
+    """For the properties quantified over every change date >= 2015-01-01 (C16, C17): thorough runs take all of them."""
+    allc = [d for d in gs.change_dates("2015-01-01", "2025-12-31") if d != "2023-01-01"]
+    reg = [d for d in gs.regime_dates("2015-01-01", "2025-12-31") if not ("2017-01-01" <= d <= "2017-06-30") and d != "2023-01-01"]
+    if quick:
+        return ["2023-01-01"] + rnd.sample(allc, min(nq, len(allc))) + rnd.sample(reg, min(nreg, len(reg)))
+    return ["2023-01-01"] + allc + [d for d in reg if d not in allc]
+
+
 def make_population(date, rnd, k=None):
     names = list(popgen.CANON)
     k = k or rnd.choice([2, 3])
